@@ -327,6 +327,31 @@ def eval_c14(ctx, tr, fs, finished):
         ctx.check('C14.no_trace', not inhist, bus=r.bus, ev=r.ev)
 
 
+# ------------------------------------------------------------------ C17 (generic part, scenarios with cfg['wal'])
+def eval_c17(ctx, tr, fs, finished):
+    import json as _json
+    import os as _os
+    wal = ctx.cfg.get('wal') or []
+    if not wal or not finished:
+        return
+    lines = getattr(ctx, 'wal_lines', [])
+    for b in wal:
+        mine = [t for (p, t) in lines if _os.path.basename(p) == f'{b}.jsonl']
+        ids = []
+        ok_shape = True
+        for t in mine:
+            try:
+                ok_shape = ok_shape and t.endswith('\n') and t.count('\n') == 1
+                ids.append(_json.loads(t).get('event_id'))
+            except Exception:
+                ok_shape = False
+        ctx.check('C17.line_shape', ok_shape, bus=b)
+        want = sorted(ctx.events[lab].event_id for lab in _uniq([r.ev for r in tr.DR if r.bus == b]) if ctx.events[lab].__class__.__name__ != 'U')
+        ctx.check('C17.one_line_per_processed', sorted(i for i in ids if i) == want, bus=b, lines=len(ids), processed=len(want))
+        if ids:
+            ctx.witness('wal written')
+
+
 # ------------------------------------------------------------------ C15
 def eval_c15(ctx, tr):
     for ab in tr.AB:
@@ -501,6 +526,7 @@ def evaluate(ctx, finished):
     eval_c10(ctx, tr, fs, finished)
     eval_c11(ctx, tr, fs)
     eval_c14(ctx, tr, fs, finished)
+    eval_c17(ctx, tr, fs, finished)
     eval_c15(ctx, tr)
     ctx.check('GEN.main_finished', bool(finished))
     return tr
